@@ -22,7 +22,8 @@
      F-C02-3  empty GlobalLayerMaskInfo, < 17 bytes after it    -> dropped on re-read, second save shorter   (fixed)
      F-C02-4  tagged blocks without a GlobalLayerMaskInfo       -> re-saved file UNREADABLE                  (fixed:
               proved unreachable from any byte string for the current reader, [glmi_class_unreachable])
-   (and one in a payload class, stage 2 below: F-C02-6 SectionDividerSetting of 8..11 bytes loses its sub type).
+   (one more was in a payload class, stage 2 below: F-C02-6 SectionDividerSetting of 8..11 bytes lost its sub type;
+   fixed by /repo de58475 - the stage-2 theorems are now unconditional).
    [resave_guard] is the conjunction of the three remaining guards; on the reader's range it is EQUIVALENT
    to well-formedness ([read_wf_exact]): there is no further class in the model. *)
 From PsdV Require Import Base.Prelude Psd.Codec Psd.Model Psd.Proofs Psd.Legacy Psd.Corr Psd.Leaf Psd.LeafProofs Psd.Resave Psd.ResaveProofs Psd.ResaveWrite.
@@ -269,33 +270,48 @@ Qed.
 (* ------------------------------------------------------------------ stage 2: the payload classes modelled in Psd/Leaf.v
    (value elements, SectionDividerSetting, SheetColorSetting, ReferencePoint, ChannelBlendingRestrictionsSetting,
    Color, FilterMask, resource Byte/Integer/ShortInteger): whatever bytes the class reader accepts - truncated,
-   over-long, any content - the object read is re-written and read back equal, for every padding, EXCEPT the
-   one class excluded by [leaf_guard] (F-C02-6). *)
+   over-long, any content - the object read is well-formed, and it is re-written and read back equal, for every
+   padding.  UNCONDITIONAL since /repo de58475 (before: F-C02-6, [leaf_resave_refuted_before_de58475]). *)
 Theorem leaf_read_wf :
-  forall k b l, read_leaf k b = Ok l -> kind_of l = k /\ (leaf_guard l = true -> wf_leaf l = true).
+  forall k b l, read_leaf k b = Ok l -> kind_of l = k /\ wf_leaf l = true /\ leaf_guard l = true.
 Proof. exact read_leaf_wf. Qed.
 Print Assumptions leaf_read_wf.
 
-Theorem leaf_resave_guarded :
+Theorem leaf_resave :
   forall k b l pad s n, 0 < pad ->
-    read_leaf k b = Ok l -> leaf_guard l = true -> write_leaf pad l = Ok (s, n) ->
-    read_leaf k s = Ok l.
-Proof. exact leaf_resave. Qed.
-Print Assumptions leaf_resave_guarded.
+    read_leaf k b = Ok l -> write_leaf pad l = Ok (s, n) -> read_leaf k s = Ok l.
+Proof. exact ResaveProofs.leaf_resave. Qed.
+Print Assumptions leaf_resave.
 
-Example leaf_resave_guarded_satisfiable :
+Example leaf_resave_satisfiable :
   exists l s n, read_leaf KSectionDivider [0;0;0;1; 56;66;73;77; 112;97;115;115; 0;0;0;9; 1;2] = Ok l /\
-    leaf_guard l = true /\ write_leaf 4 l = Ok (s, n) /\ n = 16 /\
-  exists l2 s2 n2, read_leaf KString [0;0;0;2; 0;65; 216;61; 9;9;9] = Ok l2 /\ leaf_guard l2 = true /\
+    write_leaf 4 l = Ok (s, n) /\ n = 16 /\
+  exists l2 s2 n2, read_leaf KString [0;0;0;2; 0;65; 216;61; 9;9;9] = Ok l2 /\
     write_leaf 4 l2 = Ok (s2, n2) /\ n2 = 8.
 Proof.
-  do 3 eexists. split; [vm_compute; reflexivity|]. split; [reflexivity|]. split; [vm_compute; reflexivity|].
-  split; [reflexivity|]. do 3 eexists. split; [vm_compute; reflexivity|]. split; [reflexivity|].
+  do 3 eexists. split; [vm_compute; reflexivity|]. split; [vm_compute; reflexivity|].
+  split; [reflexivity|]. do 3 eexists. split; [vm_compute; reflexivity|].
   split; [vm_compute; reflexivity|reflexivity].
 Qed.
 
-(* the same inside a file (vh.c02.W6): invisible at container level, where the payload is raw bytes - the container
-   guards hold and the container re-save is lossless; the loss happens inside the payload class *)
+(* F-C02-6 (fixed by de58475).  The reader before the fix (Psd/Legacy.v): kind, then 4 more bytes - no room for
+   signature + blend mode, but a sub type was read; the writer emits it only after a blend mode: lost on re-save.
+   The reader after the fix reads the same 8 bytes as a bare kind, which re-saves unchanged. *)
+Theorem leaf_resave_refuted_before_de58475 :
+  exists b l s n l', b = [0;0;0;1; 0;0;0;7] /\ read_section_divider_v0 b = Ok l /\ leaf_guard l = false /\
+    write_leaf 4 l = Ok (s, n) /\ read_section_divider_v0 s = Ok l' /\ l' <> l /\
+    l = LSectionDivider 1 None None (Some 7) /\ l' = LSectionDivider 1 None None None.
+Proof.
+  do 5 eexists. split; [reflexivity|]. split; [vm_compute; reflexivity|]. split; [reflexivity|].
+  split; [vm_compute; reflexivity|]. split; [vm_compute; reflexivity|]. split; [discriminate|]. split; reflexivity.
+Qed.
+Print Assumptions leaf_resave_refuted_before_de58475.
+Example fixed_by_de58475 :
+  read_leaf KSectionDivider [0;0;0;1; 0;0;0;7] = Ok (LSectionDivider 1 None None None).
+Proof. vm_compute. reflexivity. Qed.
+
+(* the same payload inside a file (vh.c02.W6, the former witness): a layer record with an 8-byte 'lsct' block;
+   at container level the payload is raw bytes and the container guards hold *)
 Definition w6 : list Z :=
   hdr1 ++
   [0;0;0;0;0;0;0;0;0;0;0;74;0;0;0;70;0;1;0;0;0;0;0;0;0;0;0;0;0;1;0;0;0;1;0;0;56;66;73;77;110;111;114;109;255;0;8;
@@ -305,14 +321,3 @@ Example w6_container_level :
   exists d, read_psd raw_codec w6 = Ok d /\ resave_guard d = true /\
     map (fun r => map tb_data (r_blocks r)) (doc_records d) = [[[0;0;0;1; 0;0;0;7]]].
 Proof. eexists. split; [vm_compute; reflexivity|]. split; vm_compute; reflexivity. Qed.
-
-(* F-C02-6: kind, then 4 more bytes: no room for signature + blend mode, but room for a sub type *)
-Theorem leaf_resave_refuted :
-  exists b l s n l', b = [0;0;0;1; 0;0;0;7] /\ read_leaf KSectionDivider b = Ok l /\ leaf_guard l = false /\
-    write_leaf 4 l = Ok (s, n) /\ read_leaf KSectionDivider s = Ok l' /\ l' <> l /\
-    l = LSectionDivider 1 None None (Some 7) /\ l' = LSectionDivider 1 None None None.
-Proof.
-  do 5 eexists. split; [reflexivity|]. split; [vm_compute; reflexivity|]. split; [reflexivity|].
-  split; [vm_compute; reflexivity|]. split; [vm_compute; reflexivity|]. split; [discriminate|]. split; reflexivity.
-Qed.
-Print Assumptions leaf_resave_refuted.
